@@ -829,6 +829,11 @@ impl Xot {
                 "Cannot wrap nodes under document node except document element".to_string(),
             ));
         }
+        if !self.value(node).is_normal() {
+            return Err(Error::InvalidOperation(
+                "Cannot wrap attribute or namespace node".to_string(),
+            ));
+        }
 
         if let Some(parent) = self.parent(node) {
             // record previous sibling
